@@ -174,6 +174,9 @@ class Exec(ExprMixin, CallMixin, BuiltinMixin, StmtMixin, ExecBase):
             o = z3.FreshConst(z3.IntSort(), "fo")
             goal = z3.ForAll([o], z3.Implies(z3.And(o > 0, o < pre.top), z3.Select(a, o) == z3.Select(base, o)))
             self.oblige(s, goal, "frame", "unmodified[%s]" % k)
+        if not any(not (m.startswith("global:") or m.startswith("ghost:")) for m in c.modifies):
+            # callers of this contract keep the allocation top unchanged (apply_contract): the body must not allocate
+            self.oblige(s, s.top == pre.top, "frame", "no_allocation")
         for k, v in s.glob.items():
             b = pre.glob.get(k, self.init_heap.get("G_" + k))
             if b is not None and b is not v and ("global:" + k) not in declared:
